@@ -4,6 +4,8 @@
 #![allow(clippy::all)]
 mod common;
 mod g_algebra;
+mod g_geom;
+mod g_mesh;
 mod g_prim;
 pub mod polygen;
 
@@ -32,6 +34,17 @@ fn main() {
         "c15" => g_algebra::c15(&mut rng, &mut out, n),
         "c14" => g_algebra::c14(&mut rng, &mut out, n),
         "c16" => g_algebra::c16(&mut rng, &mut out, n),
+        "c19" => g_geom::c19(&mut rng, &mut out, n),
+        "c04" => g_geom::c04(&mut rng, &mut out, n),
+        "c05" => g_geom::c05(&mut rng, &mut out, n),
+        "c10" => g_geom::c10(&mut rng, &mut out, n),
+        "c11" => g_geom::c11(&mut rng, &mut out, n),
+        "c12" => g_geom::c12(&mut rng, &mut out, n),
+        "c20" => g_geom::c20(&mut rng, &mut out, n),
+        "c01" => g_mesh::c01(&mut rng, &mut out, n),
+        "c08" => g_mesh::c08(&mut rng, &mut out, n),
+        "c09" => g_mesh::c09(&mut rng, &mut out, n),
+        "c18" => g_mesh::c18(&mut rng, &mut out, n),
         "c02" => g_prim::c02(&mut rng, &mut out, n),
         "c03" => g_prim::c03(&mut rng, &mut out, n),
         "c13" => g_prim::c13(&mut rng, &mut out, n),
